@@ -260,6 +260,14 @@ class Model:
                 elif op == "notify_all":
                     for tj in range(nthreads):
                         put(("slp", ins.a, tj), act, z3.BoolVal(False))
+                elif op == "notify":
+                    # wakes exactly one of the sleepers (which one is the scheduler's choice), none if nobody sleeps
+                    pick = Int("nfy_%d" % tstep)
+                    sleepers = [a[("slp", ins.a, tj)] for tj in range(nthreads)]
+                    cs.append(z3.Implies(z3.And(act, z3.Or(*sleepers)),
+                                         z3.Or(*[z3.And(pick == tj, sleepers[tj]) for tj in range(nthreads)])))
+                    for tj in range(nthreads):
+                        put(("slp", ins.a, tj), z3.And(act, pick == tj), z3.BoolVal(False))
                 elif op == "wait_sleep":
                     cname, tmo = ins.a
                     lock = self.world[cname].fields["lock"]
@@ -392,6 +400,12 @@ class Model:
         return str(r), None, None
 
     # helpers for properties
+    def stuck(self, s, t):
+        """nobody can move although somebody has not finished (deadlock / lost wake-up); only defined for steps < depth"""
+        if t >= len(self.enabled):
+            return z3.BoolVal(False)
+        return z3.And(z3.Not(self.all_done(s)), z3.Not(z3.Or(*self.enabled[t])))
+
     def all_done(self, s):
         return z3.And(*[s[("pc", ti)] == END for ti in range(len(self.progs))])
 
